@@ -527,6 +527,16 @@ func propStop(c StopCase) (o pbt.Outcome) {
 	// (stalled path with data pending). Any "too slow"/"still blocked" verdict
 	// of a Stop under these conditions is attributed to it.
 	graceApplies := !c.UDP || (c.Fault != 0 && c.Pending) // sessions cannot send their close request at once
+	stalledTCP := false // a TCP underlay whose write is stalled: writers pushing into a peer that does not read
+	hasBacklog := false
+	if !c.UDP {
+		stalledTCP = c.Pending
+		for _, ss := range c.Sessions {
+			if ss.Backlog > 0 {
+				stalledTCP, hasBacklog = true, true
+			}
+		}
+	}
 	// The finding explains about one second per session, not more: with n
 	// sessions a Stop may then need n seconds (plus slack), so it accounts for
 	// a verdict at the 10 s bound only when there are enough sessions, and
@@ -622,6 +632,26 @@ func propStop(c StopCase) (o pbt.Outcome) {
 				continue
 			}
 			sig := "blocked/" + strings.Fields(w.name)[0]
+			if stalledTCP {
+				// open finding F-C15-8 (same root cause): with the underlay's write
+				// stalled (peer not reading, full buffers) every per-session Close
+				// inside Stop blocks on the output lock, and a Read blocked at the
+				// peer is only released when the connection finally goes away. It
+				// accounts for a late return, not for one that never comes.
+				select {
+				case <-w.done:
+					sig = "blocked/tcp-write-stalled"
+				case <-time.After(time.Until(issued.Add(3 * bound))):
+					sig += "/beyond-tcp-write-stalled"
+					if hasBacklog {
+						// open finding F-C15-10: with a session's receive queue full
+						// (its application not reading) a Stop of that endpoint does
+						// not release a Read blocked at the peer at all within three
+						// times the bound
+						sig = "blocked/tcp-receive-queue-full/not-released-by-stop"
+					}
+				}
+			}
 			if tcpStop(sig) != sig {
 				select {
 				case <-w.done:
